@@ -341,10 +341,13 @@ def rule_r6(repo, tier, only_bitmap=False):
     syms = sorted(SYMBOLS)
     pairs = list(itertools.product(syms, repeat=2))
     bad_pairs = {}
+    def crosses_scope(x, y):
+        # a 221YYY count that runs into a replication is consumed per iteration at run time but once at compile time:
+        # outside the property's domain (operators opened and closed within one replication scope)
+        return x == '221002' and y in ('FIX2(E)', 'DEL(E)', 'DEL(B)', 'SEQ(E,S)')
+
     for a, b in pairs:
-        if a == '221002' and b in ('FIX2(E)', 'DEL(E)', 'DEL(B)', 'SEQ(E,S)'):
-            # a 221YYY count that runs into a replication is consumed per iteration at run time but once at compile time:
-            # outside the property's domain (operators opened and closed within one replication scope)
+        if crosses_scope(a, b):
             continue
         members = [E(1001), SYMBOLS[a](), SYMBOLS[b](), E(10004)]
         try:
@@ -360,6 +363,8 @@ def rule_r6(repo, tier, only_bitmap=False):
                                         '221002', '222000', '223000', '223255', '224255', '235000', '236000', '237000', '237255', 'DEL(B)', 'FIX2(E)')]
         m = 0
         for a, b, c in itertools.product(red, repeat=3):
+            if crosses_scope(a, b) or crosses_scope(b, c):
+                continue
             members = [E(1001), SYMBOLS[a](), SYMBOLS[b](), SYMBOLS[c](), E(10004)]
             ok, detail = compare(repo, '%s %s %s' % (a, b, c), members, rr)
             m += 1
